@@ -96,9 +96,11 @@ type fsWrite struct {
 
 // Oracles selects how behaviour the Go spec leaves open is explored.
 type Oracles struct {
-	MapOrder       bool // map iteration order is a nondet choice
-	MapOrderEvents int  // number of iteration events that fork (later: reverse)
-	Capacity       bool // append growth is a nondet choice in [needed, needed+2]
+	MapOrder       bool   // map iteration order is a nondet choice
+	MapOrderEvents int    // size of the window of iteration events that fork
+	MapOrderFrom   int    // events before this index keep insertion order
+	MapOrderMode   string // "" (window), "reverse", "rotate": one global strategy
+	Capacity       bool   // append growth is a nondet choice in [needed, needed+2]
 }
 
 func (ps *pathState) newVar(name string, w uint8) *Term {
